@@ -89,16 +89,25 @@ CHECKS = {
          "name/type/data. Tie: model vs real Provider on generated query messages; the acceptor compares the implementation's replies "
          "with the specification.",
          "DESIGN.md section 4 (C11)", "Rocq proof of functional equality with a declarative reply specification + SrcDecisions regeneration + differential correspondence"),
- "C12": ("Theorems (Properties_C12.v, partial): publish() serves exactly the proposals update() wrote; a completed probe rewrites them to "
-         "the confirmed candidate and publishes, withdrawing what was served. The convergence statement is decided per run by the "
-         "acceptor's final check (codes 30-35: served type, instance = latest probed candidate of the requested name, port, attributes, "
-         "SRV target = registered hostname, served name not taken - no conflicting response strictly inside the 2000 ms after its latest probe) on implementation traces over histories of updates, conflicts and re-probes.",
-         "DESIGN.md section 4 (C12/C13)", "Rocq proof (partial) + executable acceptor with end-of-history check + differential correspondence under virtual time"),
- "C13": ("Theorems (Properties_C13.v, partial): farewell() multicasts exactly the published PTR/SRV/TXT with TTL 0; a re-confirmation says "
-         "goodbye before announcing the replacement; SRV/TXT proposals carry the cache-flush bit. The listener statement is decided per "
-         "run by the acceptor: a reference RFC 6762 cache fed with the provider's multicasts must equal the served records at the end, "
-         "be empty after destruction, and no change of name/type/target may happen without a goodbye (codes 40-42).",
-         "DESIGN.md section 4 (C12/C13)", "Rocq proof (partial) + reference-listener acceptor + differential correspondence under virtual time"),
+ "C12": ("Theorems (Properties_C12.v, over ProviderListener.v / ProviderConverge.v): C12_quiescent_serves_last_request - in every state of the "
+         "hostname+provider+prober composite reached by ANY sequence of handler invocations (messages, any timer, update, destroy; one "
+         "provider object at a time), whenever no probe is in flight and the provider has learnt a host name, it is confirmed and serves "
+         "exactly the last supplied service: PTR named its type, SRV with its port, TXT with its attributes, all under the requested "
+         "name (dots->dashes) or an alternative name-k of it, SRV target = the proposal's (by C10 a registered host name), and these are "
+         "exactly the records a passive listener holds; C12_proposals_carry_last_request. 'First free' alternative is C07. Not proved: "
+         "target = the CURRENTLY registered name (false for the open finding created-during-reassertion). Tie + per run: acceptor final "
+         "check (codes 30-35 incl. served name not taken) on implementation traces over histories of updates, conflicts, re-probes and "
+         "structured scenarios.",
+         "DESIGN.md section 4 (C12/C13)", "Rocq invariant proof over all handler sequences of the provider composite + executable acceptor with end-of-history check + differential correspondence under virtual time"),
+ "C13": ("Theorems (Properties_C13.v, over ProviderListener.v): a passive listener applying the RFC 6762 rules (flush bit replaces name+type, "
+         "equal record replaced, TTL 0 removes) to the provider's multicast responses holds, after EVERY handler invocation of EVERY "
+         "history of the composite, exactly the provider's current PTR, SRV and TXT records (all with nonzero TTL) while the provider "
+         "exists and is confirmed (C13_listener_holds_exactly_the_served_records) and nothing otherwise, in particular after destruction "
+         "(C13_listener_holds_nothing_otherwise): every change of name, type, target, port or attributes is preceded by a goodbye or "
+         "replaces the old data. Invariant CInv: record shapes, instance-name structure label.type through prober candidates, pending "
+         "prober relation. Handler-level lemmas for farewell / re-confirmation / flush bits. Tie + per run: acceptor codes 40-42 on "
+         "implementation traces.",
+         "DESIGN.md section 4 (C12/C13)", "Rocq invariant proof over all handler sequences of the provider composite (ghost listener) + executable acceptor with reference listener + differential correspondence under virtual time"),
  "C14": ("Theorems (Properties_C14.v, over BrowserInv.v): C14_life_cycles - in any world (any number of browsers of any types, private or "
          "shared caches, any cache content) a browser that has nothing added, followed through ANY sequence of handler invocations "
          "(messages, cache and browser timers, API calls), emits notifications that form well-formed life cycles per instance: added only "
